@@ -14,9 +14,48 @@ from props._util import make_replay, rng_for
 
 LEVEL = "other"
 DEDUCTIVE = [{"module": "rnapolis.clashfinder", "sidecar": "contracts.clashfinder_c", "targets": ["find_clashes"]}]
-TRUSTED = ["numpy", "scipy KD-tree", "csv module", "CPython 3.12"]
-ASSUMPTIONS = ["A-real; distances within 1e-6 of the radius sum are undecided"]
-EXPLANATION = "see DESIGN.md 4/C17"
+TRUSTED = [
+    "CPython 3.12",
+    "scipy.spatial.KDTree(points).query_pairs(r): returns exactly the set {(i, j): 0 <= i < j < n, dist(p_i, p_j) <= r} over the "
+    "points in the order given (contracts/clashfinder_c.py _kdtree/_query_pairs); iterated as an arbitrary duplicate-free enumeration",
+    "numpy: `p - q` on 3-vectors is componentwise real subtraction; numpy.linalg.norm(p - q) is the Euclidean distance dist3(p, q), "
+    "the same (uninterpreted) function the KD tree uses",
+    "math.isclose(a, b) per its documentation with default tolerances: abs(a-b) <= 1e-9 * max(abs(a), abs(b)) (finite reals)",
+    "str.strip(): a pure function of the string (uninterpreted py_strip; no further property used)",
+    "Enum: iterating AtomType yields its members in definition order; AtomType[name] raises KeyError unless name is a member name; "
+    "member attributes (.value, .radius) are read from the real imported module",
+    "bounded part only: numpy, csv module (tool-report check)",
+]
+ASSUMPTIONS = [
+    "A-real: floats are reals, decimal literals denote their exact decimal value; (bounded part: distances within 1e-6 of the radius sum are undecided)",
+    "structure model: a residue is read only through .atoms (iterated in order) and .is_nucleotide, an atom only through .name, "
+    ".coordinates, .occupancy; the cached properties Residue3D.is_nucleotide and Atom.coordinates are deterministic and without "
+    "effect on these attributes (they are opaque fields of the heap model)",
+    "Residue3D.__eq__ (dataclass-generated, field-wise) is modelled as an uninterpreted relation res_eq; precondition requires[0]: it is "
+    "reflexive and two different positions of `residues` never hold equal residues (then `ri == rj` means 'same residue of the list')",
+    "precondition requires[1] (derived from AtomType[ai.name[0]]): for every selected atom, name and name.strip() start with the same "
+    "character, i.e. stored atom names carry no leading blank (both parsers strip names); without it find_clashes raises KeyError or "
+    "takes the wrong radius",
+    "pinned table: radii C 0.6, N 0.54, O 0.53, P 0.94 and MolProbity margin 0.5 (contracts/clashfinder_c.RADII, same as oracles/geom_o.RADII)",
+    "spec vocabulary (not assumptions about the code): push/put/empty_* build ghost lists and maps as values",
+]
+EXPLANATION = (
+    "Under contract (deductive, pyvc on the real source): clashfinder.find_clashes, all five options as free symbolic booleans (the 32 "
+    "combinations in one proof), any number of residues/atoms. Ghost lists GA/GP enumerate the selected positions (residue index, atom "
+    "index) and KI/KJ name the two enumeration indices of each result entry. Top-level clauses: enumeration.selected / .ordered / "
+    ".complete = (GA, GP) is the strictly increasing enumeration of exactly the atoms whose stripped name starts with C/N/O/P in "
+    "residues passing the nucleic-acid-only option; listed-pairs-satisfy-definition = every result entry is ((residue, atom) of t, "
+    "(residue, atom) of u, occ'_t + occ'_u) by object identity for some t < u with dist <= r(type_t) + r(type_u) + (0.5 in MolProbity "
+    "mode else 0), not (ignore_autoclashes and same residue), not (require_same_atom_name and names differ), ignore_occupancy or "
+    "isclose(occ'_t + occ'_u, 1.0), occ' = occupancy or 1.0; each-pair-once = no two entries come from the same (t, u); "
+    "every-clash-listed = every t < u satisfying that definition has an entry. Supporting obligations: loop2.inv4[kd-radius-sufficient] "
+    "(no clash is lost by the KD-tree pre-filter: r_t + r_u + m <= query radius, linear arithmetic over the radii read from the real "
+    "module), ghost.assert[radii-are-the-table] (AtomType[name[0]].radius of the code == pinned table), safe.no_KeyError / "
+    "no_IndexError (name[0] lookups, flat-list indexing), loop0/loop1 invariants (flat lists reference_residues / reference_atoms / "
+    "coordinates == the selected atoms in structure order, none skipped). "
+    "Stays bounded: main() (argparse, file reading, printing of per-residue / per-chain maxima, CSV) - the aggregation loop is inline "
+    "in main() between I/O calls and is not reachable without hand-modelling that I/O; checked by the bounded tool-report run only."
+)
 OPTS = list(itertools.product([False, True], repeat=5))  # ignore_occ, ignore_auto, na_only, same_name, molprobity
 
 
